@@ -9,6 +9,13 @@ Part A (objects): for populated instances of every concrete Copyable class: `c =
     checks that the live heap conforms to the regenerated attribute-kind table (hypothesis of the theorems).
 Part B (landmark managers): random histories over managers, landmarkable owners and caller-held shapes on the real
   classes, an independent value-semantics reference (the property oracle) and the Lean state machine.
+Part C (heap histories): a populated object, then 6..14 public operations (copy, array write, attribute rebinding,
+  any public mutator, landmark-group assignment / deletion, the inherited mapping methods update / setdefault / pop /
+  popitem / clear, the landmarks setter) through the original, its copies
+  and copies of copies; oracle after every step: every object the step was not performed on is unchanged; model:
+  the same history on the Lean heap machine `stepH` (copy / assignment predicted, other mutators replayed from
+  their observed effect and checked to be confined to owned cells), aliasing graphs of everything held compared
+  after every step, conformance to the regenerated table re-checked after every step.
 """
 import json
 import random
@@ -23,45 +30,79 @@ PROP = "C06"
 INFO = dict(
     technique="Lean 4 proof over an explicit heap model of Copyable.copy and its four overrides (copy only allocates; "
               "the copy unfolds to the same tree; on heaps conforming to a well-formed attribute-kind table every "
-              "cell the copy owns is new; copy terminates on acyclic heaps) + landmark manager as a state machine "
-              "with a ghost-tag ownership invariant, by induction over all histories; attribute-kind and "
-              "copy-resolution tables regenerated from the live classes with kernel-decided obligations; "
-              "model/implementation correspondence on sharing graphs and manager histories",
+              "cell the copy owns is new; conformance is inherited by copies; a copy reaches nothing foreign; copy "
+              "terminates on acyclic heaps) + the public mutators as operations on that heap (array write, "
+              "attribute / item rebinding to fresh object graphs, x[k] = y.copy(), del), with the separation of the "
+              "objects the caller holds as an invariant by induction over every interleaving of mutators and copies "
+              "+ landmark manager as a state machine with a ghost-tag ownership invariant, by induction over all "
+              "histories; attribute-kind, copy-resolution and mutator-effect tables regenerated from the live "
+              "classes with kernel-decided obligations; model/implementation correspondence on sharing graphs, "
+              "heap histories and manager histories",
     level_text="Theorems: copy_equal (same unfolding to every depth, nothing existing changes), copy_independent "
                "(owned cells of the copy are new, reachable cells of the original are old, for every heap conforming "
                "to tables that satisfy copyWF), the two write-invisibility corollaries, copy_total (copy succeeds), "
-               "and for the manager: refinement to an ordered map with OrderedDict re-set semantics, invariants over "
-               "every history (distinct keys, one dimensionality, ownership), None-key resolution, set/assign/copy "
-               "store copies (frame theorems).  The attribute-kind and copy-resolution tables are regenerated from "
-               "populated live instances on every run and `copyWF` is re-decided by the kernel; every sampled live "
-               "object graph is checked to conform to the table (hypothesis of the theorems).  An independent oracle "
-               "checks equality, sharing, write-through and public mutators on the real objects and a "
-               "value-semantics reference decides manager histories.",
+               "copy_reach (a copy reaches only new cells or cells the original reached), "
+               "copy_preserves_conformance / copy_of_copy_independent (copies of copies need no new hypothesis).  "
+               "Histories on the heap: step_sep / history_frame / copy_then_history (along every accepted "
+               "interleaving of copy, in-place array writes, attribute and item rebinding, landmark-group "
+               "assignment, the landmarks setter and deletion through the original, its copies and copies of "
+               "copies, the objects held stay pairwise separated and an object's own state changes only by "
+               "operations performed through it), putCopy_stores_copy (assignment stores a new, equal, wholly "
+               "owned object), copy_write_history_conforms, attr_update_conforms / dict_update_conforms (mutated "
+               "objects stay inside the table under a decidable side condition).  Manager state machine: "
+               "refinement to an ordered map with OrderedDict re-set semantics, invariants over every history "
+               "(distinct keys, one dimensionality, ownership), None-key resolution, set/assign/copy store copies "
+               "(frame theorems), xform_refines (_transform_inplace moves every group of the receiver exactly once), "
+               "observers_refine (iteration, group_labels, n_groups, has_landmarks, items_matching, n_dims are "
+               "functions of the ordered map).  The attribute-kind, copy-resolution and mutator-effect tables are "
+               "regenerated from populated live instances on every run; `copyWF` and `mutEffects_ok` (every "
+               "observed effect of every exercised public mutator updates only cells its receiver owns, with "
+               "fresh content of a kind the table lists) are re-decided by the kernel; every sampled live object "
+               "graph, also after every step of every sampled history, is checked to conform to the table "
+               "(hypothesis of the theorems).  An independent oracle checks equality, sharing, write-through and "
+               "public mutators on the real objects, per step of every history that what was done through one "
+               "object is invisible in all others, and a value-semantics reference decides manager histories.",
     level_note="Trusted: Lean kernel; axioms propext/Classical.choice/Quot.sound; harness/extract_c06.py (object-graph "
-               "encoding and table extraction), this harness, the driver's parser.  Python object identity and "
+               "encoding and table extraction), this harness (incl. the differ that reads a mutator's effect off the "
+               "object graph by object identity and array content), the driver's parser.  Python object identity and "
                "ndarray/sparse `.copy()` are modelled (a buffer's copy is a fresh buffer), not verified; the "
                "correspondence compares the model's predicted sharing graph with np.shares_memory / `is` on every case.",
-    rule="Part A: one case = one populated object (class, dimension, landmark population, caches, trimming drawn at "
-         "random); distinct = distinct (class, cell-graph shape); non-trivial = at least 2 mutable cells.  "
+    rule="Part A: one case = one populated object (class, dimension, landmark population, caches, trimming, array "
+         "storage variant - owning / view into a larger base / Fortran order / other dtype - drawn at random); "
+         "distinct = distinct (class, cell-graph shape); non-trivial = at least 2 mutable cells.  "
          "Part B: one case = one history (8..40 ops over 5 names incl. unicode, empty string and None, all shape "
          "classes); distinct = distinct op sequence; non-trivial = at least one successful set followed by a "
-         "mutation or copy",
-    partial=["public mutators are exercised on the real classes only (oracle); the model covers cell writes and "
-             "allocation, of which every mutator is an instance",
+         "mutation or copy.  Part C: one case = one heap history (6..14 public operations - copy, array write, "
+         "attribute rebinding, any public mutator, group assignment / deletion incl. the inherited mapping methods, "
+         "landmarks setter - through up to 5 "
+         "objects: the original, copies, copies of copies); distinct = distinct (class, operation sequence); "
+         "non-trivial = a copy followed by a state-changing operation",
+    partial=["public mutators in the model: copy(), landmark-group assignment / deletion (also through the inherited "
+             "update / setdefault / pop / popitem / clear) and the landmarks setter "
+             "are predicted by the model; for every other public mutator the model executes the update of the "
+             "object graph that the real call was observed to make (writes into owned arrays, rebinding of "
+             "attributes / items to freshly built object graphs, deletions), checks that it is confined to cells "
+             "the receiver owns and predicts the aliasing graph of everything held afterwards; mutators whose "
+             "effect is not of that form (TransformChain.compose_*_inplace appends a member shared by documented "
+             "design) are decided by the oracle only",
              "CachedPWA._iab (memo tuple of arrays, shared by Copyable.copy because tuples have no .copy) is treated "
              "as outside the property's quantifier for transforms (not a parameter array; whitelisted like the "
              "documented sharing); checked behaviourally: apply()/set_target on either side after the copy leaves "
              "the other's results unchanged",
-             "a shape's own copy inside the manager machine is abstracted to 'allocate an equal value' (justified "
-             "by part 1); LandmarkManager.copy is modelled in both parts",
-             "the effect of _transform_inplace on the transformed manager itself is compared by the correspondence "
-             "and the reference oracle; the theorem proved for it is the frame (no other manager, no caller shape)",
+             "the manager state machine of part 2 abstracts a shape's own copy to 'allocate an equal value'; the "
+             "same assignments with the real copyCall are part 3 (putCopy_stores_copy, history_frame)",
+             "conformance to the attribute-kind table along histories is proved for copies and array writes; "
+             "for attribute rebinding and dict updates it is proved under a decidable side condition (the kind "
+             "stored is listed), established for every observed mutator effect by the regenerated obligation "
+             "mutEffects_ok and re-checked by the driver after every step of every sampled history",
              "the model allocates a cell after computing its slots (the new object, the re-initialised dict of the "
              "two deepening overrides); allocation order is not observable"],
     assumptions=["object graphs are acyclic (a cyclic graph makes Copyable.copy recurse forever; the model returns "
                  "`fuel`)", "callables held by LazyList are opaque immutable values",
                  "error correspondence is by exception *type*: the four ValueError refusals of the manager are one "
-                 "class for the implementation diff (the model distinguishes them)"],
+                 "class for the implementation diff (the model distinguishes them)",
+                 "fnmatch (glob matching of group names) is library code: its verdict per name is an input of "
+                 "the model"],
     design_ref="DESIGN.md section 6, C06; appendix 13 items 2-3")
 IMPORTS = ["MenpoModel.Props.C06"]
 THEOREMS = [
@@ -77,6 +118,22 @@ THEOREMS = [
     "MenpoModel.C06.copy_basic",
     "MenpoModel.C06.copy_no_attr",
     "MenpoModel.C06.copy_fresh",
+    "MenpoModel.C06.step_sep",
+    "MenpoModel.C06.history_frame",
+    "MenpoModel.C06.copy_then_history",
+    "MenpoModel.C06.single_root_separated",
+    "MenpoModel.C06.putCopy_stores_copy",
+    "MenpoModel.C06.copy_reach",
+    "MenpoModel.C06.copy_preserves_wt",
+    "MenpoModel.C06.copy_preserves_conformance",
+    "MenpoModel.C06.copy_of_copy_independent",
+    "MenpoModel.C06.step_preserves_wt",
+    "MenpoModel.C06.copy_write_history_conforms",
+    "MenpoModel.C06.attr_update_conforms",
+    "MenpoModel.C06.dict_update_conforms",
+    "MenpoModel.C06.putImm_conforms",
+    "MenpoModel.C06.putFresh_conforms",
+    "MenpoModel.C06.putCopy_conforms",
     "MenpoModel.C06.LM.run_inv",
     "MenpoModel.C06.LM.reachable_inv",
     "MenpoModel.C06.LM.edit_through_manager_refines",
@@ -88,6 +145,8 @@ THEOREMS = [
     "MenpoModel.C06.LM.assign_stores_copy",
     "MenpoModel.C06.LM.mutate_through_manager_frame",
     "MenpoModel.C06.LM.copy_mgr_equal_independent",
+    "MenpoModel.C06.LM.xform_refines",
+    "MenpoModel.C06.LM.observers_refine",
 ]
 TARGETS = ["MenpoModel.Props.C06", "MenpoModel.Drive.C06"]
 
@@ -597,7 +656,27 @@ def op_tokens(op):
         return ["MG", ref(op[1]), key(op[2]), str(op[3])]
     if t == "X":
         return ["X", ref(op[1]), str(op[2])]
+    if t == "IM":
+        return ["IM", ref(op[1]), str(len(op[3]))] + [str(x) for x in op[3]]
+    if t == "N":
+        return ["N", ref(op[1])]
     raise ValueError(op)
+
+
+GLOBS = ["*", "a*", "?", "[ag]*", "*e*", "g_?", "", "* *", "[!a]*"]
+
+
+def _sel_for(glob):
+    """which names the glob accepts: `fnmatch` is library code, its verdicts are an input of the model"""
+    import fnmatch
+    return tuple(i for i, nm in enumerate(NAMES) if fnmatch.fnmatch(nm, glob))
+
+
+def _glob_for(sel):
+    for g in GLOBS:
+        if _sel_for(g) == tuple(sel):
+            return g
+    raise ValueError(sel)
 
 
 def gen_history(rng, n_ops):
@@ -662,8 +741,13 @@ def gen_history(rng, n_ops):
             k = key(mi, True)
             ops.append(("D", rf, k))
             mg[mi].pop(k, None)
-        elif r < 0.65:
+        elif r < 0.62:
             ops.append(("K", ref()[0]))
+        elif r < 0.64:
+            g = rng.choice(GLOBS)
+            ops.append(("IM", ref()[0], g, _sel_for(g)))
+        elif r < 0.65:
+            ops.append(("N", ref()[0]))
         elif r < 0.71:
             rf, mi = ref()
             ops.append(("C", rf)); mg.append(OrderedDict(mg[mi]))
@@ -801,6 +885,28 @@ def run_history(ctx, ops, seed_for_owner=0):
                 ctx.check((nd is None) == (len(ks) == 0), site, "n_dims-none", "n_dims is None iff empty", rp_i)
                 got = "keys:" + ",".join(str(x) for x in ks)
                 want = "keys:" + ",".join(str(x) for x in R.mgrs[mi])
+            elif t == "IM":
+                lm, mi, glob, sel = W.ref(op[1]), R.mref(op[1]), op[2], op[3]
+                items = list(lm.items_matching(glob))
+                ctx.check([k for k, _ in items] == list(lm.keys_matching(glob)), site, "keys-items-disagree",
+                          "keys_matching and items_matching disagree for %r" % glob, rp_i)
+                ctx.check(all(v is lm[k] for k, v in items), site, "items-not-stored-objects",
+                          "items_matching yields objects other than the stored groups", rp_i)
+                got = "items:" + ";".join("%d=%s" % (NAMES.index(k), fmt_shape(obs_shape(v))) for k, v in items)
+                want = "items:" + ";".join("%d=%s" % (k, fmt_shape(v)) for k, v in R.mgrs[mi].items() if k in sel)
+            elif t == "N":
+                lm, mi = W.ref(op[1]), R.mref(op[1])
+                m = R.mgrs[mi]
+                nd = lm.n_dims
+                ctx.check(lm.n_groups == len(lm) == len(list(lm)), site, "counts-disagree",
+                          "n_groups, len() and iteration disagree", rp_i)
+                if op[1][0] == "o":
+                    ow = W.owners[op[1][1]]
+                    ctx.check(ow.has_landmarks == lm.has_landmarks and ow.n_landmark_groups == lm.n_groups, site,
+                              "owner-counts-disagree", "owner.has_landmarks / n_landmark_groups disagree with "
+                              "the manager", rp_i)
+                got = "count:%d:%d:%s" % (lm.n_groups, 1 if lm.has_landmarks else 0, "-" if nd is None else nd)
+                want = "count:%d:%d:%s" % (len(m), 1 if m else 0, next(iter(m.values()))[1] if m else "-")
             elif t == "C":
                 lm, mi = W.ref(op[1]), R.mref(op[1])
                 W.mgrs.append(lm.copy()); got = "idx:%d" % (len(W.mgrs) - 1)
@@ -906,6 +1012,571 @@ def nontrivial_history(ops):
     return False
 
 
+# ============================================================================= part C: heap histories
+
+LM_QUAL = "menpo.landmark.base.LandmarkManager"
+HKEYS = ["a", "b", "é中", "g 0", "zz"]
+MAX_ROOTS = 5
+
+
+def encode_many(roots):
+    """one heap for everything reachable from the objects the caller holds (cells shared between roots once)"""
+    e = X.Enc()
+    vals = [e.val(o, "r%d" % i) for i, o in enumerate(roots)]
+    return e, vals
+
+
+def owned_paths(enc, rootval):
+    """{cell index: (slot names from the root, lim)}: the cells the root owns, with the first owned access path"""
+    out = {}
+
+    def go(val, lim, names):
+        if val[0] == "i" or lim == "X":
+            return
+        j = val[1]
+        if j in out:
+            return
+        out[j] = (names, lim)
+        cell = enc.cells[j]
+        if cell[0] == "N" and lim == "F":
+            for name, v in cell[2]:
+                go(v, _child_lim(cell, lim, name), names + [name])
+
+    go(rootval, "F", [])
+    return out
+
+
+def _sorted_slots(cell):
+    return sorted(cell[2], key=lambda p: p[0]) if cell[1] != "L" else cell[2]
+
+
+def real_dump(enc, rootvals):
+    """canonical form of the object graph (same algorithm as `dumpWorld` in Drive/C06.lean)"""
+    seen, out = {}, []
+
+    def go(val):
+        if val[0] == "i":
+            out.append("i")
+            return
+        j = val[1]
+        if j in seen:
+            out.append("#%d" % seen[j])
+            return
+        seen[j] = len(seen)
+        c = enc.cells[j]
+        if c[0] == "B":
+            out.append("B")
+            return
+        out.append(c[1] + "(")
+        for name, v in _sorted_slots(c):
+            out.append(name + "=")
+            go(v)
+        out.append(")")
+
+    for rv in rootvals:
+        out.append("/")
+        go(rv)
+    return "".join(out)
+
+
+def _fingerprint(v):
+    import scipy.sparse as sp
+    if sp.issparse(v):
+        c = v.tocoo()
+        return ("sparse", v.shape, str(v.dtype), tuple(sorted(zip(c.row.tolist(), c.col.tolist(), c.data.tolist()))))
+    return (str(v.dtype), v.shape, v.tobytes())
+
+
+def snapshot(enc):
+    """id(object) -> what the differ compares: array content / (kind, slots by identity)"""
+    sig = {}
+    for c in enc.cells:
+        o = c[-1]
+        if c[0] == "B":
+            sig[id(o)] = ("B", _fingerprint(o))
+        else:
+            sig[id(o)] = ("N", c[1], tuple((n, "i" if v[0] == "i" else id(enc.cells[v[1]][-1])) for n, v in c[2]))
+    return sig
+
+
+def _cell_tokens(enc, c, rel):
+    if c[0] == "B":
+        return ["B"]
+    toks = ["N", c[1], str(len(c[2]))]
+    for name, v in c[2]:
+        toks += [name, "i" if v[0] == "i" else "r%d" % rel[v[1]]]
+    return toks
+
+
+def fragment_tokens(enc, j, sig0, placed):
+    """the new cells reachable from cell j, children first, as a self-contained fragment; None when it refers to
+    a cell that existed before (or that another fragment already holds)"""
+    order, rel = [], {}
+
+    def go(k):
+        if k in rel:
+            return True
+        c = enc.cells[k]
+        if id(c[-1]) in sig0 or k in placed:
+            return False
+        if c[0] == "N":
+            for _, v in c[2]:
+                if v[0] == "r" and not go(v[1]):
+                    return False
+        rel[k] = len(order)
+        order.append(k)
+        return True
+
+    if not go(j):
+        return None
+    placed.update(order)
+    toks = [str(len(order))]
+    for k in order:
+        toks += _cell_tokens(enc, enc.cells[k], rel)
+    return toks
+
+
+def _ptoks(names):
+    return [str(len(names))] + list(names)
+
+
+def diff_effects(E0, sig0, own0, E1):
+    """the effect a real operation had on the object graph, as a list of updates of cells the acting root owns:
+    {"op": W|F|I|D, "path": slot names from the root, "x": slot, "frag": tokens, "cell": kind tag of the updated
+    cell, "kind": runtime kind of the value stored}; (None, why) when the effect is not such a tree-like update
+    (then: oracle only)"""
+    effs, placed = [], set()
+    for idx0, c0 in enumerate(E0.cells):          # children first: paths of later cells are still intact
+        o = c0[-1]
+        j1 = E1.ids.get(id(o))
+        if j1 is None:
+            continue                               # no longer reachable
+        c1 = E1.cells[j1]
+        if c0[0] == "B":
+            if _fingerprint(o) != sig0[id(o)][1]:
+                if idx0 not in own0:
+                    return None, "wrote-unowned-array"
+                effs.append({"op": "W", "path": own0[idx0][0], "cell": "B"})
+            continue
+        before = sig0[id(o)][2]
+        after = tuple((n, "i" if v[0] == "i" else id(E1.cells[v[1]][-1])) for n, v in c1[2])
+        if before == after:
+            continue
+        if idx0 not in own0 or own0[idx0][1] != "F":
+            return None, "changed-unowned-cell"
+        names = own0[idx0][0]
+        bmap, amap = dict(before), dict(after)
+        vals1 = dict(c1[2])
+        for n in bmap:
+            if n not in amap:
+                if c0[1] != "D":
+                    return None, "slot-removed"
+                effs.append({"op": "D", "path": names, "x": n, "cell": c0[1]})
+        for n, tgt in after:
+            if n in bmap and bmap[n] == tgt:
+                continue
+            if tgt == "i":
+                effs.append({"op": "I", "path": names, "x": n, "cell": c0[1], "kind": ("elem", "imm")})
+            elif tgt in sig0:
+                return None, "stores-existing-cell"
+            else:
+                frag = fragment_tokens(E1, E1.ids[tgt], sig0, placed)
+                if frag is None:
+                    return None, "fragment-not-fresh"
+                effs.append({"op": "F", "path": names, "x": n, "cell": c0[1], "frag": frag,
+                             "kind": X.kind_of(E1, vals1[n])})
+    return effs, None
+
+
+def eff_tokens(i, e):
+    t = [e["op"], str(i)] + _ptoks(e["path"])
+    if e["op"] != "W":
+        t.append(e["x"])
+    if e["op"] == "F":
+        t += e["frag"]
+    return t
+
+
+def diff_ops(i, E0, sig0, own0, E1):
+    effs, why = diff_effects(E0, sig0, own0, E1)
+    if effs is None:
+        return None, why
+    return [eff_tokens(i, e) for e in effs], None
+
+
+# mutators whose effect is, by documented design, not confined to cells the receiver owns: a chain shares its members
+SHARING_MUTATORS = [("menpo.transform.base.composable.TransformChain", "compose_before_inplace"),
+                    ("menpo.transform.base.composable.TransformChain", "compose_after_inplace")]
+
+
+def effect_table(per_class=3):
+    """{(class, mutator): set of effects} observed on fresh populated instances of every class: which cells of
+    the receiver's own object graph a public mutator updates and what it stores there"""
+    rows = {}
+    for li, label in enumerate(X.LABELS):
+        for t in range(per_class):
+            seed = 7919 * (li + 1) + t
+            names = [n for n, _ in mutators(X.make(label, random.Random(seed)), random.Random(seed + 1))]
+            for name in names:
+                o = X.make(label, random.Random(seed))
+                ms = dict(mutators(o, random.Random(seed + 1)))
+                if name not in ms:
+                    continue
+                E0, rv0 = encode_many([o])
+                sig0 = snapshot(E0)
+                own0 = owned_paths(E0, rv0[0])
+                try:
+                    ms[name]()
+                except Exception:
+                    pass
+                E1, _ = encode_many([o])
+                effs, why = diff_effects(E0, sig0, own0, E1)
+                row = rows.setdefault((X.qual(type(o)), name), set())
+                if effs is None:
+                    row.add(("opaque", why, "", "", ("elem", "other")))
+                    continue
+                for e in effs:
+                    cell = e["cell"]
+                    cls = cell[2:] if cell.startswith("O:") else ""
+                    x = e.get("x", "") if cls else ("*" if e["op"] != "W" else "")
+                    row.add((e["op"], "O" if cls else cell, cls, x, e.get("kind", ("elem", "other"))
+                             if e["op"] in ("F", "I") else ("elem", "other")))
+    return rows
+
+
+def effects_lean():
+    rows = effect_table()
+    opn = {"W": ".write", "F": ".fresh", "I": ".imm", "D": ".del", "opaque": ".opaque"}
+    out = ["/-",
+           "GENERATED by harness/c06.py (effect_table) from the live classes of the menpo working tree - do not edit.",
+           "mutEffects: for every concrete Copyable class and every public mutator the harness exercises, the updates of",
+           "the receiver's own object graph observed on populated instances (which kind of cell, which attribute, the",
+           "runtime kind of what is stored); `opaque` = not an update of owned cells with fresh content.",
+           "-/",
+           "import MenpoModel.Core.C06Ops",
+           "",
+           "namespace MenpoModel.C06.Generated",
+           "open MenpoModel.C06",
+           "",
+           "def mutEffects : List (String × String × List Eff) := ["]
+    body = []
+    for (cls, name) in sorted(rows):
+        effs = ",\n".join('    ⟨%s, "%s", "%s", "%s", .%s .%s⟩' % (opn[op], cell, c, x, k[0], k[1])
+                          for op, cell, c, x, k in sorted(rows[(cls, name)]))
+        body.append('  ("%s", "%s", [\n%s])' % (cls, name, effs))
+    out.append(",\n".join(body) + "]")
+    out.append("")
+    out.append("def sharingMutators : List (String × String) := [")
+    out.append(",\n".join('  ("%s", "%s")' % p for p in SHARING_MUTATORS) + "]")
+    out.append("")
+    out.append("end MenpoModel.C06.Generated")
+    obl = """
+/-- every observed effect of every public mutator is an update of cells the receiver owns with freshly built
+content (or the mutator is one of the documented sharing ones), and what it stores in an attribute of an object
+has a runtime kind the attribute-kind table lists for that attribute: mutated objects stay inside the table -/
+theorem mutEffects_ok :
+    Generated.mutEffects.all (fun row => row.2.2.all
+      (effOK Generated.attrKinds Generated.sharingMutators row.1 row.2.1)) = true := by decide +kernel
+"""
+    return "\n".join(out) + "\n", obl, {"n_rows": len(rows), "n_effects": sum(len(v) for v in rows.values())}
+
+
+LM_FRAG = ["2", "N", "D", "0", "N", "O:" + LM_QUAL, "1", "_landmark_groups", "r0"]
+
+
+def _ndims(o):
+    try:
+        return int(o.n_dims)
+    except Exception:
+        return None
+
+
+def run_heap_history(ctx, label, obj_seed, hist_seed, n_ops):
+    """one Part-C case: returns (initial heap tokens, [(model ops, real dump after)]) for the correspondence"""
+    from menpo.base import Copyable
+    from menpo.landmark import LandmarkManager
+    from menpo.landmark.base import Landmarkable
+    from menpo.shape import PointCloud
+    rng = random.Random(hist_seed)
+    rp = {"part": "history", "label": label, "obj_seed": obj_seed, "hist_seed": hist_seed, "n_ops": n_ops}
+    roots = [X.make(label, random.Random(obj_seed))]
+    keyenc = X.Enc()._key
+    E, rv = encode_many(roots)
+    init = [str(rv[0][1]), str(len(E.cells))]
+    for c in E.cells:
+        init += _cell_tokens(E, c, {k: k for k in range(len(E.cells))})
+    steps, log = [], []
+    seen_copy = nontrivial = False
+    follow = None
+    for k in range(n_ops):
+        E0, rv0 = encode_many(roots)
+        sig0 = snapshot(E0)
+        own = [owned_paths(E0, v) for v in rv0]
+        before = [digest(r, own=True) for r in roots]
+        full_before = [digest(r) for r in roots]
+
+        def objs(i, klass, lim_full=True):
+            return [(idx, E0.cells[idx][3], nm) for idx, (nm, lim) in sorted(own[i].items())
+                    if E0.cells[idx][0] == "N" and E0.cells[idx][1].startswith("O:") and (lim == "F" or not lim_full)
+                    and isinstance(E0.cells[idx][3], klass)]
+
+        i = rng.randrange(len(roots))
+        r = rng.random()
+        kind = ("copy" if r < 0.18 else "write" if r < 0.38 else "rebind" if r < 0.46 else "mutator" if r < 0.66
+                else "mgr-set" if r < 0.78 else "mgr-del" if r < 0.82 else "mgr-mixin" if r < 0.88
+                else "touch" if r < 0.90 else "lm-assign")
+        if not seen_copy and k >= 1 and rng.random() < 0.5:
+            kind = "copy"
+        if kind == "copy" and len(roots) >= MAX_ROOTS:
+            kind = "write"
+        want_write = None
+        if follow is not None and rng.random() < 0.6:
+            # "group then mutated": edit the value that was just assigned, through the object it belongs to
+            i, kind, want_write = follow[0], "write", follow[1]
+        follow = None
+        actor, ops, why, desc = i, None, None, kind
+        try:
+            if kind == "copy":
+                actor = None
+                roots.append(roots[i].copy())
+                ops = [["C", str(i)]]
+                seen_copy = True
+            elif kind == "write":
+                cands = [(idx, nm) for idx, (nm, lim) in sorted(own[i].items()) if E0.cells[idx][0] == "B"]
+                rng.shuffle(cands)
+                if want_write is not None:
+                    cands = [c_ for c_ in cands if c_[1][:len(want_write)] == want_write] or cands
+                ops = []
+                for idx, nm in cands:
+                    if _poke(E0.cells[idx]) is not None:
+                        ops = [["W", str(i)] + _ptoks(nm)]
+                        desc = "write r%d.%s" % (i, ".".join(nm))
+                        break
+            elif kind == "rebind":
+                cands = [(idx, o, nm, a) for idx, o, nm in objs(i, Copyable) for a, v in o.__dict__.items()
+                         if isinstance(v, np.ndarray) and v.dtype != object and not a.startswith("_")]
+                ops = []
+                if cands:
+                    idx, o, nm, a = rng.choice(cands)
+                    new = getattr(o, a).copy()
+                    if new.dtype.kind == "f":
+                        new += 0.5
+                    setattr(o, a, new)
+                    ops = [["F", str(i)] + _ptoks(nm) + [a, "1", "B"]]
+                    desc = "rebind r%d.%s.%s" % (i, ".".join(nm), a)
+            elif kind == "mutator":
+                cands = objs(i, Copyable)
+                ops = []
+                if cands:
+                    idx, o, nm = rng.choice(cands)
+                    ms = mutators(o, rng)
+                    if ms:
+                        name, thunk = rng.choice(ms)
+                        desc = "mutator %s on r%d.%s (%s)" % (name, i, ".".join(nm), type(o).__name__)
+                        ctx.count("hist-mutator:" + name)
+                        try:
+                            thunk()
+                        except Exception:
+                            ctx.count("hist-mutator-raised")
+                        ops = "observe"
+            elif kind in ("mgr-set", "mgr-del"):
+                cands = objs(i, (Landmarkable, LandmarkManager))
+                ops = []
+                if cands:
+                    idx, t, nm = rng.choice(cands)
+                    is_mgr = isinstance(t, LandmarkManager)
+                    mgr_none = (not is_mgr) and t._landmarks is None
+                    dpath = nm + (["_landmark_groups"] if is_mgr else ["_landmarks", "_landmark_groups"])
+                    if kind == "mgr-del":
+                        lm = t if is_mgr else (None if mgr_none else t.landmarks)
+                        if lm is not None and lm.n_groups:
+                            key = rng.choice(lm.group_labels)
+                            del lm[key]
+                            ops = [["D", str(i)] + _ptoks(dpath) + [keyenc(key)]]
+                            desc = "del r%d.%s[%r]" % (i, ".".join(dpath), key)
+                    else:
+                        d = (t.n_dims or 2) if is_mgr else _ndims(t)
+                        srcs = [(j, nm2, o2) for j in range(len(roots)) for _, o2, nm2 in objs(j, PointCloud, False)
+                                if _ndims(o2) == d]
+                        if srcs and d is not None:
+                            j, nm2, src = rng.choice(srcs)
+                            key = rng.choice(HKEYS)
+                            lm = t if is_mgr else t.landmarks
+                            try:
+                                lm[key] = src
+                                ops = ([["F", str(i)] + _ptoks(nm) + ["_landmarks"] + LM_FRAG] if mgr_none else [])
+                                ops.append(["P", str(i)] + _ptoks(dpath) + [keyenc(key), str(j)] + _ptoks(nm2))
+                                follow = (j, nm2)
+                            except ValueError:
+                                ctx.count("hist-set-refused")
+                                ops = "observe"          # the lazily created manager, if any
+                            desc = "r%d.%s[%r] = r%d.%s" % (i, ".".join(dpath), key, j, ".".join(nm2))
+            elif kind == "mgr-mixin":
+                # the mapping methods LandmarkManager inherits from MutableMapping (built on __setitem__ /
+                # __getitem__ / __delitem__): update, setdefault store copies; pop, popitem, clear delete
+                cands = objs(i, LandmarkManager)
+                ops = []
+                if cands:
+                    idx, t, nm = rng.choice(cands)
+                    dpath = nm + ["_landmark_groups"]
+                    which = rng.choice(["update", "setdefault", "pop", "popitem", "clear"])
+                    desc = "r%d.%s.%s" % (i, ".".join(nm), which)
+                    d = t.n_dims
+                    if which == "update":
+                        srcs = [(j, nm2, o2) for j in range(len(roots)) for _, o2, nm2 in objs(j, LandmarkManager)
+                                if o2.n_groups and (d is None or o2.n_dims == d) and o2 is not t
+                                # a source held inside one of the target's own groups is detached by the update
+                                # itself: its access path does not survive the first assignment (the model
+                                # addresses operands by path), so that aliasing case is left to the oracle of "mgr-set"
+                                and not (j == i and nm2[:len(nm)] == nm)]
+                        if srcs:
+                            j, nm2, src = rng.choice(srcs)
+                            labels = list(src.group_labels)
+                            t.update(src)
+                            ops = [["P", str(i)] + _ptoks(dpath) + [keyenc(kk), str(j)]
+                                   + _ptoks(nm2 + ["_landmark_groups", keyenc(kk)]) for kk in labels]
+                            follow = (j, nm2 + ["_landmark_groups", keyenc(labels[0])])
+                            desc += "(r%d.%s)" % (j, ".".join(nm2))
+                    elif which == "setdefault":
+                        srcs = [(j, nm2, o2) for j in range(len(roots)) for _, o2, nm2 in objs(j, PointCloud, False)
+                                if d is None or _ndims(o2) == d]
+                        if srcs:
+                            j, nm2, src = rng.choice(srcs)
+                            key = rng.choice(HKEYS)
+                            had = key in t
+                            t.setdefault(key, src)   # (returns the caller's object when the key was absent;
+                            #                           what is stored is a copy, which is all the property asks)
+                            ops = [] if had else [["P", str(i)] + _ptoks(dpath) + [keyenc(key), str(j)] + _ptoks(nm2)]
+                            follow = None if had else (j, nm2)
+                            desc += "(%r, r%d.%s)" % (key, j, ".".join(nm2))
+                    elif t.n_groups:
+                        labels = list(t.group_labels)
+                        if which == "pop":
+                            key = rng.choice(labels)
+                            t.pop(key)
+                            gone = [key]
+                        elif which == "popitem":
+                            gone = [t.popitem()[0]]
+                        else:
+                            t.clear()
+                            gone = labels
+                        ops = [["D", str(i)] + _ptoks(dpath) + [keyenc(kk)] for kk in gone]
+                        desc += "(%s)" % ",".join(repr(kk) for kk in gone)
+            elif kind == "touch":
+                cands = [(idx, o, nm) for idx, o, nm in objs(i, Landmarkable) if o._landmarks is None]
+                ops = []
+                if cands:
+                    idx, o, nm = rng.choice(cands)
+                    o.landmarks
+                    ops = [["F", str(i)] + _ptoks(nm) + ["_landmarks"] + LM_FRAG]
+                    desc = "touch r%d.%s.landmarks" % (i, ".".join(nm))
+            else:
+                cands = objs(i, Landmarkable)
+                ops = []
+                if cands:
+                    idx, t, nm = rng.choice(cands)
+                    d = _ndims(t)
+                    srcs = [(j, nm2, o2) for j in range(len(roots)) for _, o2, nm2 in objs(j, Landmarkable)
+                            if o2._landmarks is not None and _ndims(o2) == d and o2._landmarks.n_dims in (None, d)]
+                    if srcs and d is not None:
+                        j, nm2, src = rng.choice(srcs)
+                        t.landmarks = src.landmarks
+                        ops = [["P", str(i)] + _ptoks(nm) + ["_landmarks", str(j)] + _ptoks(nm2 + ["_landmarks"])]
+                        follow = (j, nm2 + ["_landmarks"])
+                        desc = "r%d.%s.landmarks = r%d.%s.landmarks" % (i, ".".join(nm), j, ".".join(nm2))
+        except Exception as e:
+            ctx.fail("C06/history/" + kind, "raises:" + type(e).__name__,
+                     "step %d (%s) raised %r after %s" % (k, desc, e, "; ".join(log)), dict(rp, failing_step=k))
+            return init, steps, False
+        try:
+            encode_many(roots)
+        except (X.CyclicGraph, RecursionError) as e:
+            # only a stored reference to an existing object can close a cycle: every assignment must store a copy
+            ctx.fail("C06/history/" + kind, "cyclic-object-graph", "step %d (%s) made an object reachable from itself "
+                     "(%s): the value assigned was stored, not a copy; history: %s" % (k, desc, e, "; ".join(log + [desc])),
+                     dict(rp, failing_step=k))
+            return init, steps, False
+        log.append(desc)
+        ctx.count("hist-op:" + kind)
+        site = "C06/history/" + kind
+        rp_k = dict(rp, failing_step=k, steps=list(log))
+        # the oracle: what was done through one object is invisible in every other one
+        for j in range(len(before)):
+            if j != actor and digest(roots[j], own=True) != before[j]:
+                ctx.fail(site, "visible-in-other-object",
+                         "step %d (%s) changed the state of r%d (%s), which it was not performed on; history: %s"
+                         % (k, desc, j, type(roots[j]).__name__, "; ".join(log)), rp_k)
+        if kind == "copy":
+            ctx.check(digest(roots[-1]) == full_before[i], site, "not-equal",
+                      "step %d: the copy of r%d differs from it; history: %s" % (k, i, "; ".join(log)), rp_k)
+        E1, rv1 = encode_many(roots)
+        own1 = [owned_paths(E1, v) for v in rv1]
+        if kind in ("copy", "mgr-set", "lm-assign", "mutator", "mgr-mixin"):
+            # no array owned by one object shares memory with an array owned by another one
+            bufs = [[E1.cells[idx][1] for idx in ow if E1.cells[idx][0] == "B"] for ow in own1]
+            for a in range(len(roots)):
+                for b in range(a + 1, len(roots)):
+                    if any(_shares(x, y) for x in bufs[a] for y in bufs[b]):
+                        ctx.fail(site, "arrays-shared", "after step %d (%s) r%d and r%d own arrays that share memory; "
+                                 "history: %s" % (k, desc, a, b, "; ".join(log)), rp_k)
+        if ops == "observe":
+            ops, why = diff_ops(i, E0, sig0, own[i], E1)
+        if ops is None:
+            ctx.count("hist-opaque:" + why)
+            break
+        if seen_copy and kind != "copy" and ops:
+            nontrivial = True
+        if ops:
+            steps.append((ops, real_dump(E1, rv1), desc))
+    return init, steps, nontrivial
+
+
+def compare_hist(ctx, reply, steps, rp):
+    head, _, body = reply.partition(" ")
+    blocks = body.split(" | ") if body else []
+    n_model_ops = sum(len(ops) for ops, _, _ in steps)
+    if head != "closed=1" or len(blocks) != n_model_ops:
+        ctx.mismatch("history", "model answered %r with %d blocks for %d ops" % (head, len(blocks), n_model_ops), rp)
+        return
+    pos = 0
+    for k, (ops, dump, desc) in enumerate(steps):
+        mine = blocks[pos:pos + len(ops)]
+        pos += len(ops)
+        bad = [b for b in mine if not b.startswith("ok ")]
+        if bad:
+            ctx.mismatch("history.accept", "step %d (%s): the model refuses %r: %s"
+                         % (k, desc, [" ".join(o[:6]) for o in ops], bad[0][:60]), dict(rp, failing_step=k))
+            return
+        if not mine[-1].startswith("ok wt=1 # "):
+            ctx.mismatch("history.conforms", "step %d (%s): the object graph no longer conforms to the regenerated "
+                         "attribute-kind table (hypothesis of copy_independent for later copies)" % (k, desc),
+                         dict(rp, failing_step=k))
+            return
+        mdump = mine[-1].partition(" # ")[2]
+        if mdump != dump:
+            ctx.mismatch("history.graph", "step %d (%s): object graphs differ: model %s / implementation %s"
+                         % (k, desc, mdump[:400], dump[:400]), dict(rp, failing_step=k))
+            return
+
+
+def part_c(ctx, n, with_model=True):
+    rng = ctx.rng
+    lines, pend = [], {}
+    for k in range(n):
+        label = X.LABELS[k % len(X.LABELS)] if k < len(X.LABELS) else rng.choice(X.LABELS)
+        obj_seed, hist_seed, n_ops = rng.randrange(1 << 30), rng.randrange(1 << 30), rng.randint(6, 14)
+        init, steps, nontrivial = run_heap_history(ctx, label, obj_seed, hist_seed, n_ops)
+        rp = {"part": "history", "label": label, "obj_seed": obj_seed, "hist_seed": hist_seed, "n_ops": n_ops}
+        ctx.case(("hist", label, tuple(d for _, _, d in steps)), nontrivial=nontrivial,
+                 sample={"part": "C", "class": label, "history": [d for _, _, d in steps][:8]} if 1 <= k < 3 else None)
+        if with_model and steps:
+            cid = "c%d" % k
+            toks = [t for ops, _, _ in steps for op in ops for t in op]
+            lines.append("%s hist %s %d %s" % (cid, " ".join(init), sum(len(o) for o, _, _ in steps), " ".join(toks)))
+            pend[cid] = (steps, rp)
+    return lines, pend
+
+
 # ============================================================================= cache behaviour of CachedPWA copies
 
 def check_pwa_memo(ctx, seed):
@@ -928,10 +1599,17 @@ def check_pwa_memo(ctx, seed):
 
 # ============================================================================= run / search / replay
 
+EFF_MODULE = "MenpoModel.Generated.C06Effects"
+EFF_PATH = "MenpoModel/Generated/C06Effects.lean"
+
+
 def generated(ctx):
-    files, notes = X.lean_files()
+    eff_text, eff_obl, eff_notes = effects_lean()
+    files, notes = X.lean_files(extra_import=EFF_MODULE, extra_obligations=eff_obl)
+    files[EFF_PATH] = eff_text
+    notes["mutator_effects"] = eff_notes
     ctx.notes["generated_tables"] = notes
-    ok = common.build_generated(ctx, files, [X.GEN_MODULE, X.OBL_MODULE], 2)
+    ok = common.build_generated(ctx, files, [X.GEN_MODULE, EFF_MODULE, X.OBL_MODULE], 3)
     if not ok:
         ctx.notes["generated_obligation"] = "copyWF / copySupplier_ok no longer check against the live classes"
     if notes["missing_instances"]:
@@ -952,8 +1630,8 @@ def part_a(ctx, n, with_model=True):
         ent, enc_o, root_o = res
         shape_sig = tuple((c[0],) if c[0] == "B" else (c[1], tuple(n for n, _ in c[2])) for c in enc_o.cells)
         ctx.case(("copy", label, shape_sig), nontrivial=len(enc_o.cells) >= 2,
-                 sample={"class": label, "cells": len(enc_o.cells),
-                         "sharing_graph": dict(sorted(ent.items())[:6])})
+                 sample={"part": "A", "class": label, "cells": len(enc_o.cells),
+                         "sharing_graph": dict(sorted(ent.items())[:6])} if k < 2 else None)
         if with_model:
             cid = "a%d" % k
             lines.append(cid + " copy " + " ".join(heap_tokens(enc_o, root_o)))
@@ -969,7 +1647,8 @@ def part_b(ctx, n, with_model=True):
         blocks = run_history(ctx, ops, seed_for_owner=k)
         toks = [tk for op in ops for tk in op_tokens(op)]
         ctx.case(("lm",) + tuple(toks), nontrivial=nontrivial_history(ops),
-                 sample={"history": " ".join(toks)[:300], "last": (blocks or ["-"])[-1][:200]})
+                 sample={"part": "B", "history": " ".join(toks)[:300], "last": (blocks or ["-"])[-1][:200]}
+                 if k < 2 else None)
         if blocks is not None and with_model:
             cid = "b%d" % k
             lines.append(cid + " lm " + str(len(ops)) + " " + " ".join(toks))
@@ -993,6 +1672,12 @@ def search(ctx):
         ctx.searched += 1
         if ctx.failures:
             return True
+    for k in range(30 * len(X.LABELS)):
+        run_heap_history(ctx, X.LABELS[k % len(X.LABELS)], rng.randrange(1 << 30), rng.randrange(1 << 30),
+                         rng.randint(6, 16))
+        ctx.searched += 1
+        if ctx.failures:
+            return True
     return False
 
 
@@ -1005,13 +1690,16 @@ def run(ctx):
                     "every case by np.shares_memory)"]
     la, pa = part_a(ctx, ctx.n(600, 6000))
     lb, pb = part_b(ctx, ctx.n(500, 6000))
+    lc, pc = part_c(ctx, ctx.n(250, 2500))
     for s in range(ctx.n(5, 40)):
         check_pwa_memo(ctx, ctx.rng.randrange(1 << 30))
-    model = common.run_driver(PROP, la + lb)
+    model = common.run_driver(PROP, la + lb + lc)
     for cid, (ent, rp, label) in pa.items():
         compare_model(ctx, model[cid], ent, rp, label)
     for cid, (blocks, ops, oseed) in pb.items():
         compare_history(ctx, model[cid], blocks, ops, oseed)
+    for cid, (steps, rp) in pc.items():
+        compare_hist(ctx, model[cid], steps, rp)
     return ctx.finish(search)
 
 
@@ -1042,6 +1730,17 @@ def replay(ctx, path):
             print("implementation:", blocks[-1])
             print("model         :", model["r"].split(" | ")[-1])
             compare_history(ctx, model["r"], blocks, ops, rp.get("owner_seed", 0))
+    elif part == "history":
+        init, steps, _ = run_heap_history(ctx, rp["label"], rp["obj_seed"], rp["hist_seed"], rp["n_ops"])
+        ctx.case(("replay", rp["label"], rp["obj_seed"], rp["hist_seed"]))
+        ctx.case(("replay2", rp["label"], rp["obj_seed"], rp["hist_seed"]))
+        if steps:
+            toks = [t for ops, _, _ in steps for op in ops for t in op]
+            model = common.run_driver(PROP, ["r hist %s %d %s" % (" ".join(init), sum(len(o) for o, _, _ in steps),
+                                                                 " ".join(toks))])
+            print("implementation:", [d for _, _, d in steps])
+            print("model         :", [b[:40] for b in model["r"].split(" | ")])
+            compare_hist(ctx, model["r"], steps, rp)
     elif part == "pwa-memo":
         check_pwa_memo(ctx, rp["obj_seed"])
         ctx.case(("replay2", rp["obj_seed"]))
@@ -1081,4 +1780,9 @@ def parse_op(t):
         return ("MG", ref(t[1]), key(t[2]), int(t[3]))
     if k == "X":
         return ("X", ref(t[1]), int(t[2]))
+    if k == "IM":
+        sel = tuple(int(v) for v in t[3:])
+        return ("IM", ref(t[1]), _glob_for(sel), sel)
+    if k == "N":
+        return ("N", ref(t[1]))
     raise ValueError(t)
